@@ -782,3 +782,51 @@ func TestGovcReplayNextKeyFromSource(t *testing.T) {
 	}
 	fmt.Println("NOT-REPRODUCED: next keys of Build and Append are derived from the bytes the source delivered")
 }
+
+// TestGovcReplayLimitsAcrossMethods: C11 — the run limits given to the constructor stay in
+// force after every authorizer method (Add*, LoadPolicies of its own snapshot, Reset,
+// Query): an authorizer limited to 4 facts must still refuse a 6-fact request.
+func TestGovcReplayLimitsAcrossMethods(t *testing.T) {
+	steps := []struct {
+		name string
+		do   func(a Authorizer) error
+	}{
+		{"LoadPolicies(own snapshot)", func(a Authorizer) error {
+			s, err := a.SerializePolicies()
+			if err != nil {
+				return err
+			}
+			return a.LoadPolicies(s)
+		}},
+		{"Reset", func(a Authorizer) error { a.Reset(); return nil }},
+		{"AddCheck", func(a Authorizer) error {
+			a.AddCheck(Check{Queries: []Rule{{Head: Predicate{Name: "q"}, Body: []Predicate{{Name: "right", IDs: []Term{Variable("a"), Variable("b")}}}}}})
+			return nil
+		}},
+		{"AddPolicy", func(a Authorizer) error { a.AddPolicy(DefaultAllowPolicy); return nil }},
+		{"AddRule", func(a Authorizer) error {
+			a.AddRule(Rule{Head: Predicate{Name: "r", IDs: []Term{Variable("a")}}, Body: []Predicate{{Name: "right", IDs: []Term{Variable("a"), Variable("b")}}}})
+			return nil
+		}},
+	}
+	for _, st := range steps {
+		tok, pub := govcToken(t)
+		a, err := tok.Authorizer(pub, WithWorldOptions(datalog.WithMaxFacts(4), datalog.WithMaxIterations(100), datalog.WithMaxDuration(10*time.Second)))
+		if err != nil {
+			t.Fatal(err)
+		}
+		if err := st.do(a); err != nil {
+			t.Fatalf("%s: %v", st.name, err)
+		}
+		for i := 0; i < 6; i++ {
+			a.AddFact(Fact{Predicate: Predicate{Name: "extra", IDs: []Term{Integer(int64(i))}}})
+		}
+		a.AddPolicy(DefaultAllowPolicy)
+		if got := a.Authorize(); got == nil || !errors.Is(got, datalog.ErrWorldRunLimitMaxFacts) {
+			fmt.Printf("REPRODUCED: authorizer created with WithMaxFacts(4); after %s a request with 6 more facts gives %v instead of the fact-limit error\n", st.name, got)
+			t.Fail()
+			return
+		}
+	}
+	fmt.Println("NOT-REPRODUCED: the configured fact limit is enforced after every authorizer method tried")
+}
